@@ -23,7 +23,7 @@ CLAIM = dict(
     text="Theorems: orbit sum (orbit-stabiliser) Sum_g F(g r) = c Sum_{k in orbit(r)} F k with c|orbit| = |G|; for every "
          "equivariant f the irreducible points weighted by |orbit|/N, each value averaged over the group, sum to the plain "
          "grid average (abstractly, and for the model of run(): irrSum = fullSum with symmetrize_tensor / transform_tensor "
-         "of C09, every rank, every admissible Transform pair); the symmetrised stacked table carries f at every entry and "
+         "of C09, every rank, every Transform pair); the symmetrised stacked table carries f at every entry and "
          "reaches every grid point; TABresult.to_grid gives the grid point of cell c the index c, every index is in range, "
          "whatever gets index c is that grid point modulo the reciprocal lattice, and cells filled with equal values "
          "average to that value.  PARTIAL by design: equivariance of each calculator's per-k value (C08 parities, C09 "
@@ -32,9 +32,11 @@ CLAIM = dict(
          "symmetrize=False) - the reference is NOT symmetrised.",
     note="Trusted: Lean kernel + Mathlib; the harness incl. its own group-averaging construction of symmetric models "
          "(validated on every model with System.check_symmetry and an independent eigenvalue test); irreducible weights "
-         "|orbit|/N and the orbit partition are hypotheses here (C06). Known finding C07-aniso-fft-sheared-op: grids with "
+         "|orbit|/N and the orbit partition are hypotheses here (C06). Known findings: C07-aniso-fft-sheared-op (grids with "
          "anisotropic NKFFT and an operation whose reduced matrix does not commute with diag(NKFFT) are accepted but the "
-         "irreducible run is wrong.",
+         "irreducible run is wrong) and C07-shift-injection-degenerate-bands (ShiftCurrent / InjectionCurrent are not "
+         "covariant at k-points with exactly degenerate bands); spin-dependent calculators (Spin, SHC, GME_spin, ...) are "
+         "not exercised: the s-orbital models carry no SS matrix.",
 )
 TRUSTED = [
     "modelled: TABresult.__init__ (k % 1), transform, stacking by __add__, to_grid (on-grid test, index, k_map), "
